@@ -9,7 +9,7 @@
    fn parse(bytes, check_only)            parse co gv s   (gv = cargo feature "gvariant")
    write_as_string(w, outer_parens)       write_as_string outer t ; to_string = show ; to_string_no_parens = show_noparens
    string_len                             string_len
-   impl PartialEq / Ord / Hash            sig_eq / sig_cmp / sig_hash (the i32 values written to the Hasher, in order)
+   impl PartialEq / Ord / Hash            sig_eq / sig_cmp (+ kind_rank) / sig_hash (the i32 values written to the Hasher, in order)
    impl PartialEq<&str>                   eq_str (a str slice that is out of range or off a char boundary is a Panic) *)
 From ZV Require Import Base.Bytes Base.Res.
 
@@ -256,8 +256,20 @@ Fixpoint sig_eq (a b : tsig) : bool :=
   | _, _ => false
   end.
 
+(* Signature::kind_rank (fix 668536e1): the position of the kind in the order used by Ord — the numbers Hash feeds *)
+Definition kind_rank (t : tsig) : N :=
+  match t with
+  | TLeaf c => code_num c
+  | TArray _ _ => 15
+  | TDict _ _ _ _ => 16
+  | TStruct _ _ => 17
+  | TMaybe _ _ => 18
+  end%N.
+
 Fixpoint sig_cmp (a b : tsig) : comparison :=
   match a, b with
+  | TLeaf x, TLeaf y =>                    (* (Unit, Unit) | (U8, U8) | … => Equal, otherwise the last arm *)
+      if code_eqb x y then Eq else N.compare (kind_rank a) (kind_rank b)
   | TArray _ x, TArray _ y => sig_cmp x y
   | TDict _ k1 _ v1, TDict _ k2 _ v2 => match sig_cmp k1 k2 with Eq => sig_cmp v1 v2 | o => o end
   | TStruct _ f1, TStruct _ f2 =>          (* a.iter().cmp(b.iter()) *)
@@ -269,7 +281,7 @@ Fixpoint sig_cmp (a b : tsig) : comparison :=
          | x :: l1', y :: l2' => match sig_cmp x y with Eq => go l1' l2' | o => o end
          end) f1 f2
   | TMaybe _ x, TMaybe _ y => sig_cmp x y
-  | _, _ => Eq                             (* equal unit variants, and  (_, _) => Ordering::Equal *)
+  | _, _ => N.compare (kind_rank a) (kind_rank b)     (* (_, _) => self.kind_rank().cmp(&other.kind_rank()) *)
   end.
 
 (* the sequence of i32 values written to the Hasher *)
